@@ -4,6 +4,6 @@ CONSTANTS
  MaxSpans = 100000
  MaxDepth = 100000
  MaxOps = 100000000
-INVARIANTS OutNoDup OutMetricWins OutSpanFields OutUnchanged OutConforms PreMergeOK StructOK
+INVARIANTS RecordVisible OutNoDup OutMetricWins OutSpanFields OutUnchanged OutConforms PreMergeOK StructOK
 POSTCONDITION TraceAccepted
 CHECK_DEADLOCK FALSE
